@@ -21,6 +21,7 @@ SUPP_THEOREMS = [
     "c10_helpers_emit_wire_form",
     "c10_parse_tables_fit_schemas",
     "c10_parse_dispatch_lossless",
+    "c10_complete_enum_exact",
 ]
 THEOREMS = [
     "c10_translated",
